@@ -153,8 +153,9 @@ class Universe:
         # x690: resolved dependency, analysed from source, never imported
         spec = importlib.util.find_spec("x690")
         xh = hashlib.sha256()
-        if spec is not None and spec.submodule_search_locations:
-            base = list(spec.submodule_search_locations)[0]
+        override = os.path.join(self.repo, "_x690_override")  # checker validation only: a patched copy next to src/
+        if os.path.isdir(override) or (spec is not None and spec.submodule_search_locations):
+            base = override if os.path.isdir(override) else list(spec.submodule_search_locations)[0]
             for fname in ("__init__.py", "types.py", "util.py", "exc.py"):
                 path = os.path.join(base, fname)
                 if os.path.exists(path):
